@@ -1053,6 +1053,8 @@ def o_pp1(chk, dadi, inp):
     for p, g in pp:
         if g not in gs0 and demo is not None:
             gs1 = [float(x) for x in c.gammas]
+            if g not in gs1:
+                continue        # where (and whether) an on-the-fly spectrum is kept is the cache's business; the repeated call below judges the effect
             st = np.asarray(c.spectra, dtype=float)[gs1.index(g)]
             want = data_of(demo(tuple(c.params) + (g,), c.ns, c.pts))
             if relerr(st, want) > 1e-12:
@@ -1061,6 +1063,8 @@ def o_pp1(chk, dadi, inp):
                          dict(inp, stored=small(st), expected=small(want)))
                 return
     th2 = inp.get('theta2')
+    if th2 is None and demo is not None and any(g not in gs0 for _, g in pp):
+        th2 = theta             # after an on-the-fly gamma the same call must give the same answer (nothing precomputed was disturbed)
     if th2 is not None:
         got2 = data_of(c.integrate_point_pos(params, None, sel, th2, demo_sel_func=demo, Npos=len(pp)))
         if relerr(got2, exp * (th2 / theta)) > 1e-9:
